@@ -1,7 +1,24 @@
 """C06 — failures reach the caller and never hang the pipeline.
 
 Unit `post_office`: the single-thread processor's message bus (strax.processors.post_office.PostOffice)
-against coq/Model/PostOffice.v on random DAGs with a failure injected at every (producer, position)."""
+against coq/Model/PostOffice.v on random DAGs with a failure injected at every (producer, position).
+
+Unit `threaded`: the real strax.ThreadedMailboxProcessor, wired from hand-made ProcessorComponents
+(harness/c06_net.py), under the controlled scheduler (harness/sched): every explored schedule is also fed
+to the extracted Coq network LTS (coq/Model/MailboxFail.v, derived from the wiring the real processor
+built) and the abstract observations are compared after every step; independently the property's own
+predicate is evaluated on every implementation run (original exception at the caller, no live thread,
+no deadlock, savers closed and marked, no truncated data without an exception).
+
+Unit `context`: the real strax.Context(...).get_iter / get_array with processor='threaded_mailbox' on real
+strax plugins and an in-memory storage frontend with failure injection: controlled schedules, plus real
+OS schedules with sys.setswitchinterval(1e-6), also with max_workers=2 (futures).
+"""
+import json
+import os
+import sys
+import time
+
 import strax
 from strax.processors.post_office import PostOffice, Spy
 
@@ -164,16 +181,860 @@ def unit_post_office(ctx):
                 "fault": cases[len(cases) // 2][3], "model": mout[len(cases) // 2]})
 
 
+# =============================================================================================
+# unit `threaded`
+# =============================================================================================
+
+def chain_case(L, n, cap, lazy, savers=None, fault=None, cfault=None, loader=False, rechunk=()):
+    nodes = [{"name": "s0", "kind": "loader" if loader else "source"}]
+    for i in range(1, L):
+        nodes.append({"name": "s%d" % i, "kind": "plugin", "deps": ["s%d" % (i - 1)]})
+    sv = dict(savers or {})
+    sv = {k: sv[k] for k in sorted(sv, key=lambda d: int(d[1:]))}
+    return {"shape": "chain%d" % L, "N": n, "cap": cap, "lazy": bool(lazy), "relay": False, "nodes": nodes,
+            "savers": sv, "rechunk": list(rechunk), "target": "s%d" % (L - 1),
+            "fault": fault, "cfault": cfault}
+
+
+def fan_case(n, cap, lazy, savers=None, fault=None, cfault=None, pre=1, post=0, side_first=False, loader=False):
+    nodes = [{"name": "s0", "kind": "loader" if loader else "source"}]
+    for i in range(1, pre):
+        nodes.append({"name": "s%d" % i, "kind": "plugin", "deps": ["s%d" % (i - 1)]})
+    nodes.append({"name": "m", "kind": "multi", "deps": ["s%d" % (pre - 1)],
+                  "provides": ["y", "x"] if side_first else ["x", "y"]})
+    last = "x"
+    for i in range(post):
+        nodes.append({"name": "p%d" % i, "kind": "plugin", "deps": [last]})
+        last = "p%d" % i
+    return {"shape": "fan%d%d%s" % (pre, post, "s" if side_first else ""), "N": n, "cap": cap, "lazy": bool(lazy),
+            "relay": False, "nodes": nodes, "savers": dict(savers or {}), "rechunk": [], "target": last,
+            "fault": fault, "cfault": cfault}
+
+
+def diamond_case(n, cap, lazy, savers=None, fault=None, cfault=None):
+    nodes = [{"name": "s", "kind": "source"}, {"name": "a", "kind": "plugin", "deps": ["s"]},
+             {"name": "b", "kind": "plugin", "deps": ["s"]}, {"name": "c", "kind": "plugin", "deps": ["a", "b"]}]
+    return {"shape": "diamond", "N": n, "cap": cap, "lazy": bool(lazy), "relay": False, "nodes": nodes,
+            "savers": dict(savers or {}), "rechunk": [], "target": "c", "fault": fault, "cfault": cfault}
+
+
+def fault_list(case, positions=None):
+    """every (stage kind, position) of the graph: nodes (source / loader / plugin / multi-output), savers of the
+    target and of other outputs, the consumer (exception and close); position N = 'at the end'"""
+    n = case["N"]
+    pos = list(range(n + 1)) if positions is None else positions
+    out = [(None, None)]
+    for nd in case["nodes"]:
+        for p in pos:
+            if case.get("graph") and nd["kind"] != "source" and p >= n:
+                continue        # real plugins / loaders have no hook "at the end"
+            out.append(({"node": nd["name"], "pos": p}, None))
+    for d, c in case["savers"].items():
+        for i in range(c):
+            # a plain saver fails while saving chunk p < N; a rechunking saver saves everything in the final
+            # flush (position N)
+            for p in ([n] if d in case.get("rechunk", ()) else [p for p in pos if p < n]):
+                if n > 0:
+                    out.append(({"saver": [d, i], "pos": p}, None))
+    for k in range(n):
+        out.append((None, {"chunk": k, "close": False}))
+        out.append((None, {"chunk": k, "close": True}))
+    return out
+
+
+def with_fault(case, fault, cfault):
+    c = json.loads(json.dumps(case))
+    c["fault"], c["cfault"] = fault, cfault
+    return c
+
+
+def case_tag(case):
+    f = case.get("fault")
+    cf = case.get("cfault")
+    ft = "nofault"
+    if f:
+        ft = ("saver(%s,%d)@%d" % (f["saver"][0], f["saver"][1], f["pos"])) if "saver" in f else "%s@%d" % (f["node"], f["pos"])
+    if cf:
+        ft += " consumer-%s@%d" % ("close" if cf["close"] else "exc", cf["chunk"])
+    return "%s N%d cap%d %s savers%s %s%s" % (case.get("shape", "?"), case["N"], case["cap"],
+                                              "lazy" if case["lazy"] else "eager",
+                                              json.dumps(case["savers"], sort_keys=True), ft,
+                                              " relay" if case.get("relay") else "")
+
+
+# ----- known classes of genuine defects (design_notes/C06.md, known_findings.json) ---------------
+
+def multi_outputs(case):
+    out = set()
+    for nd in case["nodes"]:
+        if nd["kind"] == "multi":
+            out |= set(nd["provides"])
+    return out
+
+
+def known_class(case, what):
+    """the class of already reported defects a failing run belongs to, or None"""
+    cf = case.get("cfault")
+    f = case.get("fault")
+    if cf and cf["close"] and not case.get("relay"):
+        return "F1"
+    if f and "saver" in f and f["saver"][0] in multi_outputs(case):
+        if "deadlock" in what:
+            return "F3"
+        if "StopIteration" in what:
+            return "F2"
+    return None
+
+
+WITNESSES = {
+    # F1: the caller closes ThreadedMailboxProcessor.iter() directly
+    "F1": {"case": None, "schedule": None},
+}
+
+
+# ----- running one schedule / exploring ------------------------------------------------------------
+
+def system_factory(case):
+    from harness import c06_net
+    if case.get("graph"):
+        from harness import c06_ctx
+        return lambda sched: c06_ctx.ContextSystem(sched, case)
+    return lambda sched: c06_net.NetSystem(sched, case)
+
+
+def net_of(case):
+    """(tokens of the Coq network, thread names) of the processor strax builds for `case`"""
+    from harness.sched.core import Scheduler
+    with Scheduler() as s:
+        sysm = system_factory(case)(s)
+        try:
+            return sysm.model_net(), [t.name for t in s.threads]
+        finally:
+            if hasattr(sysm, "close"):
+                sysm.close()
+
+
+def family_line(case, net):
+    """driver line computing the canonical network of Model/C06Nets.v this case should be an instance of (the
+    families the general statements of Props/C06.v speak about), or None"""
+    if case.get("graph") or case.get("rechunk") or case.get("max_workers"):
+        return None
+    kinds = [nd["kind"] for nd in case["nodes"]]
+    fl = net_fault_tokens(net, case)
+    fx = 1 if tuple(case.get("fixes", (1, 1, 1))) == (1, 1, 1) and os.environ.get("C06_PINNED") != "1" else 0
+    if case["shape"].startswith("chain") and kinds[0] == "source":
+        L = len(case["nodes"])
+        nsav = [case["savers"].get("s%d" % i, 0) for i in range(L)]
+        toks = [fx, case["N"], int(case["lazy"]), int(bool(case.get("relay"))), L] + [case["cap"]] * L + nsav + fl
+        return "family chain " + " ".join(map(str, toks))
+    if case["shape"] in ("fan10", "fan10s") and kinds[0] == "source":
+        sx, sy = case["savers"].get("x", 0), case["savers"].get("y", 0)
+        if list(case["savers"]) not in ([], ["x"], ["y"], ["x", "y"]):
+            return None
+        toks = [fx, case["N"], case["cap"], int(case["lazy"]), int(case["shape"] == "fan10s"), sx, sy,
+                int(bool(case.get("relay")))] + fl
+        return "family fan " + " ".join(map(str, toks))
+    return None
+
+
+def net_fault_tokens(net, case):
+    """the six fault / consumer-fault tokens of a derived network line"""
+    # layout: nmb {cap lazy nsubs drives}* nth {thread}* ft fp fc ck cc ce f1 f2 f3 ...
+    i = 0
+    nmb = net[i]; i += 1
+    for _ in range(nmb):
+        ns = net[i + 2]
+        i += 3 + ns
+    nth = net[i]; i += 1
+    for _ in range(nth):
+        k = net[i]
+        if k == 0:
+            i += 4 + 2 * net[i + 3]
+        elif k == 1:
+            i += 4
+        elif k == 2:
+            i += 3
+        elif k == 3:
+            i += 4 + 2 * net[i + 3]
+        else:
+            i += 4
+    return list(net[i:i + 6])
+
+
+def model_line(net, schedule):
+    return "net " + " ".join(map(str, net)) + " %d " % len(schedule) + " ".join(map(str, schedule))
+
+
+def split_model(out):
+    body, tail = out.split(" # ")
+    tail, init = tail.split(" @ ")
+    parts = [p.strip() for p in body.split(" | ")] if body.strip() else []
+    dis = None
+    if parts and parts[-1].startswith("DISABLED"):
+        dis = int(parts[-1].split()[1])
+        parts = parts[:-1]
+    toks = tail.split()
+    return parts, dis, toks[0], int(toks[1]), [int(x) for x in toks[2:]], init.strip()
+
+
+def compare_with_model(net, results):
+    """-> list of (index, description) of runs on which implementation and model differ"""
+    outs = lib.run_model("C06", [model_line(net, r.schedule) for r in results])
+    bad = []
+    for idx, (r, mo) in enumerate(zip(results, outs)):
+        if mo.startswith("EXC") or " # " not in mo:
+            bad.append((idx, "model driver: " + mo[:200]))
+            continue
+        parts, dis, term, oc, en, init = split_model(mo)
+        what = None
+        if r.obs0 != init:
+            what = "initial state: implementation observes [%s], model [%s]" % (r.obs0, init)
+        elif dis is not None:
+            what = "model: thread scheduled at step %d is not enabled; implementation ran it" % dis
+        else:
+            for i, (a, b) in enumerate(zip(r.obs, parts)):
+                if a != b:
+                    what = "step %d (thread %d): implementation observes [%s], model [%s]" % (i, r.schedule[i], a, b)
+                    break
+        if what is None and r.outcome in ("complete", "deadlock"):
+            if en:
+                what = "implementation has no runnable thread at the end, the model enables %s" % en
+            elif (term == "T") != (r.outcome == "complete"):
+                what = "end of run: implementation %s, model %s" % (
+                    r.outcome, "all threads finished" if term == "T" else "deadlock")
+            elif r.system_info and oc != r.system_info["outcome_code"]:
+                what = "caller's outcome: implementation %s, model %s" % (r.system_info["outcome_code"], oc)
+        if what is None and r.outcome == "not-enabled":
+            what = "implementation: " + str(r.error)
+        if what is not None:
+            bad.append((idx, what))
+    return bad
+
+
+def property_failure(case, res):
+    """The C06 predicate on one implementation run; None if it holds, else a description."""
+    info = res.system_info or {}
+    n = case["N"]
+    if res.outcome == "deadlock":
+        blocked = [nm for nm, st in zip(info.get("names", []), info.get("status", [])) if st == "blocked"]
+        return "deadlock (a real run would end in a timeout): threads %s are blocked forever; caller's result: %s" % (
+            blocked, info.get("result"))
+    if res.outcome in ("limit", "open"):
+        return "the run did not terminate within the step limit"
+    if res.outcome != "complete":
+        return None
+    result = info.get("result")
+    if result is None:
+        return "the caller's thread ended without a result"
+    kind, etxt = result
+    fired = info["fired"] or info["consumer_fired"]
+    closing = bool(case.get("cfault") and case["cfault"]["close"])
+    savers = info["savers"]
+    if kind == "ok":
+        if info["rows"] != list(range(n)):
+            return "the caller received chunks %s without an exception (the run has %d chunks)" % (info["rows"], n)
+        if fired:
+            return "an exception was raised inside the pipeline but the caller's iteration ended normally"
+        for sv in savers:
+            if not sv["closed"] or sv["exception"] or sv["rows"] != n:
+                return "normal end but saver of %s is %s" % (sv["name"], sv)
+        return None
+    if kind == "swallowed":
+        return "the exception thrown by the consumer was swallowed by the iterator"
+    if kind == "closed":
+        # close() returned normally: all threads have stopped (outcome complete)
+        pass
+    if kind == "err":
+        if not fired and not closing:
+            return "the caller received %s although nothing failed" % etxt
+        if closing and not info["fired"]:
+            if "OutsideException" not in etxt and not info["original"]:
+                return "closing the iterator raised %s" % etxt
+        elif not info["original"]:
+            return "the caller received [%s] instead of the original exception" % etxt
+    for sv in savers:
+        if not sv["closed"]:
+            return "after the failure the saver of %s was not closed" % sv["name"]
+        if not sv["exception"] and sv["rows"] != n:
+            return "after the failure the saver of %s is closed without an exception but holds %d of %d chunks" % (
+                sv["name"], sv["rows"], n)
+    return None
+
+
+def exec_task(task):
+    """one exploration task in a worker process -> JSON-able summary"""
+    import random
+    import threading
+    import zlib
+    from harness.sched import explore_dfs, random_walks, run_schedule
+    from harness.sched.core import pool_threads
+    t0 = time.time()
+    case = task["case"]
+    if task["kind"] == "os":
+        return exec_os_task(task)
+    fac = system_factory(case)
+    net, names = net_of(case)
+    results = []
+    truncated = False
+    if task["kind"] == "dfs":
+        for r in explore_dfs(fac, task["bound"], max_runs=task["max_runs"]):
+            results.append(r)
+        truncated = len(results) >= task["max_runs"]
+    elif task["kind"] == "random":
+        rng = random.Random(task["seed"])
+        for r in random_walks(fac, rng, task["n"], sticky=task.get("sticky", 0.0)):
+            results.append(r)
+    elif task["kind"] == "replay":
+        # follow the recorded schedule as far as it is executable (a recorded thread that is not enabled any
+        # more is skipped), then run the lowest enabled thread until nothing is enabled
+        todo = list(task["schedule"])
+
+        def guided(en, last):
+            while todo:
+                t = todo.pop(0)
+                if t in en:
+                    return t
+            return en[0]
+        results.append(run_schedule(fac, [], extend=guided))
+    out = {"kind": task["kind"], "case": case, "runs": len(results), "steps": sum(len(r.schedule) for r in results),
+           "truncated": truncated, "outcomes": {}, "disagreements": [], "failures": [], "nontrivial": 0,
+           "codes": {}, "names": names, "net": net}
+    bad = compare_with_model(net, results) if task.get("compare", True) else []
+    if task.get("compare", True):
+        cov = lib.run_model("C06", ["netcover " + " ".join(map(str, net))])[0].split()
+        out["cover"] = cov
+        if cov != ["1", "1"]:
+            bad = [(0, "the network wired by ThreadedMailboxProcessor does not satisfy the premises of the shutdown theorem "
+                       "C06_noticed_failure_shuts_down (cover_b, init_ok_b = %s)" % cov)] + bad
+    if task.get("compare", True) and not case.get("graph"):
+        dag = lib.run_model("C06", ["netdag " + " ".join(map(str, net)) + " %d" % case["N"]])[0].split()
+        out["dag"] = dag
+        if dag[:1] != ["1"]:
+            bad = [(0, "the network wired by ThreadedMailboxProcessor is not a well-formed plugin DAG in the sense of "
+                       "Model/C06Dag.v (dag_ok_b = %s)" % dag)] + bad
+    fam = family_line(case, net) if task.get("compare", True) else None
+    out["family"] = None
+    if fam is not None:
+        d1, d2 = lib.run_model("C06", ["netdigest " + " ".join(map(str, net)), fam])
+        out["family"] = (d1 == d2)
+        if d1 != d2:
+            bad = [(0, "the network wired by ThreadedMailboxProcessor is not the %s network of Model/C06Nets.v the "
+                       "theorems speak about (digests %s / %s)" % (fam.split()[1], d1, d2))] + bad
+    for idx, what in bad[:2]:
+        r = results[idx]
+        out["disagreements"].append({"schedule": r.schedule, "what": what, "outcome": r.outcome})
+    out["n_disagreements"] = len(bad)
+    nfail = 0
+    hashes = set()
+    for r in results:
+        out["outcomes"][r.outcome] = out["outcomes"].get(r.outcome, 0) + 1
+        oc = (r.system_info or {}).get("outcome_code")
+        out["codes"][str(oc)] = out["codes"].get(str(oc), 0) + 1
+        f = property_failure(case, r)
+        if f:
+            nfail += 1
+            cls = known_class(case, f)
+            if len([x for x in out["failures"] if x["class"] == cls]) < 1:
+                out["failures"].append({"schedule": r.schedule, "what": f, "outcome": r.outcome, "class": cls,
+                                        "final": r.system_info})
+        info = r.system_info or {}
+        if (info.get("fired") or info.get("consumer_fired")) and any("1" in o.split()[:len(names)] for o in r.obs):
+            hashes.add(zlib.crc32(repr(r.schedule).encode()))
+    out["nontrivial"] = len(hashes)
+    out["n_failures"] = nfail
+    if results:
+        r = results[len(results) // 2]
+        out["sample"] = {"case": case_tag(case), "schedule": r.schedule, "outcome": r.outcome,
+                         "caller": (r.system_info or {}).get("result")}
+        out["xsample"] = r.schedule if len(r.schedule) <= 70 else None
+    npool, busy = pool_threads()
+    out["threads_left"] = threading.active_count() - 1 - npool + busy
+    out["wall"] = round(time.time() - t0, 2)
+    return out
+
+
+def os_failure(case, ob):
+    """The C06 predicate on one run under the real OS scheduler (observation of c06_ctx.os_run)."""
+    n = case["N"]
+    kind, etxt = ob["result"]
+    if ob["threads_left"]:
+        return "pipeline threads still alive after the call returned: %s" % ob["threads_left"]
+    fired = ob["fired"] or ob["consumer_fired"]
+    closing = bool(case.get("cfault") and case["cfault"]["close"])
+    if kind == "ok":
+        if ob["rows"] != list(range(n)):
+            return "the caller received chunks %s without an exception (the run has %d chunks)" % (ob["rows"], n)
+        if fired:
+            return "an exception was raised inside the pipeline but the call returned normally"
+        for sv in ob["savers"]:
+            if not sv["closed"] or sv["exception"] or sv["rows"] != n:
+                return "normal end but saver of %s is %s" % (sv["name"], sv)
+        for d, v in ob["stored"].items():
+            if v is not True:
+                return "normal end but %s is not stored (%s)" % (d, v)
+        return None
+    if kind == "err":
+        if "Timeout" in etxt:
+            return "the caller received a timeout (%s) instead of the original exception" % etxt
+        if closing and not ob["fired"]:
+            if not ob["outside"] and not ob["original"]:
+                return "closing the iterator raised %s" % etxt
+        elif not fired:
+            return "the caller received %s although nothing failed" % etxt
+        elif not ob["original"]:
+            return "the caller received [%s] instead of the original exception" % etxt
+    for sv in ob["savers"]:
+        if not sv["closed"]:
+            return "after the failure the saver of %s was not closed" % sv["name"]
+        if not sv["exception"] and sv["rows"] != n:
+            return "after the failure the saver of %s is closed without an exception but holds %d of %d chunks" % (
+                sv["name"], sv["rows"], n)
+        if sv["exception"] and ob["stored"].get(sv["name"]) is True:
+            return "the saver of %s recorded an exception but the data is reported as stored" % sv["name"]
+    return None
+
+
+def exec_os_task(task):
+    from harness import c06_ctx
+    t0 = time.time()
+    case = task["case"]
+    out = {"kind": "os", "case": case, "runs": 0, "steps": 0, "truncated": False, "outcomes": {}, "disagreements": [],
+           "failures": [], "nontrivial": 0, "codes": {}, "names": [], "net": None, "n_disagreements": 0,
+           "n_failures": 0, "threads_left": 0}
+    for rep in range(task["reps"]):
+        ob = c06_ctx.os_run(case, how=task.get("how", "iter"))
+        out["runs"] += 1
+        key = ob["result"][0] if ob["result"][0] != "err" else "err:" + ob["result"][1].split(":")[0]
+        out["codes"][key] = out["codes"].get(key, 0) + 1
+        out["outcomes"]["complete"] = out["outcomes"].get("complete", 0) + 1
+        if ob["fired"] or ob["consumer_fired"]:
+            out["nontrivial"] = 1
+        f = os_failure(case, ob)
+        if f:
+            out["n_failures"] += 1
+            if not out["failures"]:
+                out["failures"].append({"schedule": None, "what": f, "outcome": "os", "class": known_class(case, f),
+                                        "final": ob})
+            break           # one failing run is enough (a hang costs strax's whole timeout)
+        out["sample"] = {"case": case_tag(case), "how": task.get("how", "iter"), "caller": ob["result"],
+                         "savers": ob["savers"]}
+    out["wall"] = round(time.time() - t0, 2)
+    return out
+
+
+def _worker_init():
+    sys.stdout = open(os.devnull, "w")      # strax prints ("Main generator exited irregularly?!")
+    import logging
+    logging.disable(logging.CRITICAL)
+    # a forked worker must not inherit the parent's pool of OS threads (they do not exist in the child)
+    from harness.sched import core
+    core.POOL = core._OSThreadPool()
+    core.CURRENT = None
+
+
+def run_tasks(tasks, nproc=None):
+    import multiprocessing as mp
+    nproc = nproc or min(16, os.cpu_count() or 4)
+    if len(tasks) <= 1 or nproc <= 1:
+        return [exec_task(t) for t in tasks]
+    from harness.sched.core import shutdown_pool
+    shutdown_pool()                          # no scheduler threads alive while forking
+    ctxm = mp.get_context("fork")
+    order = sorted(range(len(tasks)), key=lambda i: -tasks[i].get("weight", 1))
+    with ctxm.Pool(nproc, initializer=_worker_init) as pool:
+        res = pool.map(exec_task, [tasks[i] for i in order], chunksize=1)
+    out = [None] * len(tasks)
+    for i, r in zip(order, res):
+        out[i] = r
+    return out
+
+
+def threaded_bases(ctx, big):
+    """(base case, exploration size) pairs; every base is expanded with every failure position"""
+    rng = ctx.rng
+    bases = []
+    lazies = (False, True)
+    # chains: <= 3 stages x <= 3 chunks, every saver placement pattern rotates through the list
+    placements = [{}, {"T": 1}, {"s0": 1}, {"T": 1, "s0": 1}, {"T": 2}]
+    k = 0
+    for L in (1, 2, 3):
+        for n in ((1, 2, 3) if big else (1, 2)):
+            for cap in (1, 2):
+                for lazy in lazies:
+                    pl = placements[k % len(placements)]
+                    k += 1
+                    sv = {}
+                    for key, cnt in pl.items():
+                        name = "s%d" % (L - 1) if key == "T" else key
+                        sv[name] = max(sv.get(name, 0), cnt)
+                    bases.append(chain_case(L, n, cap, lazy, savers=sv))
+    bases.append(chain_case(3, 3, 2, False, savers={"s1": 1, "s2": 1}))
+    bases.append(chain_case(3, 3, 1, True, savers={"s1": 1}))
+    bases.append(chain_case(2, 0, 1, False, savers={"s1": 1}))
+    bases.append(chain_case(2, 2, 4, True, savers={"s1": 1}, loader=True))
+    bases.append(chain_case(3, 2, 2, False, savers={"s0": 1}, loader=True))
+    bases.append(chain_case(2, 2, 2, False, savers={"s1": 1}, rechunk=["s1"]))
+    bases.append(chain_case(2, 2, 1, True, savers={"s0": 1, "s1": 1}, rechunk=["s0"]))
+    # one-level fan-out: multi-output plugin, side output saved / discarded, target saved or not
+    for n in ((1, 2, 3) if big else (1, 2)):
+        for lazy in lazies:
+            for side_first in (False, True):
+                bases.append(fan_case(n, 1 + n % 2, lazy, savers={"y": 1}, side_first=side_first))
+                bases.append(fan_case(n, 2, lazy, savers={}, side_first=side_first))
+            bases.append(fan_case(n, 2, lazy, savers={"x": 1, "y": 1}, post=1))
+            bases.append(fan_case(n, 4, lazy, savers={"y": 1}, pre=2))
+    # diamonds (general DAGs: correspondence only)
+    for n in ((1, 2, 3) if big else (1, 2)):
+        for lazy in lazies:
+            bases.append(diamond_case(n, 1 + n % 2, lazy, savers={"a": 1} if n == 2 else {}))
+    return bases
+
+
+def build_threaded_tasks(ctx):
+    big = ctx.thorough or ctx.escalated()
+    rng = ctx.rng
+    tasks = []
+    for base in threaded_bases(ctx, big):
+        nthreads = len(base["nodes"]) + sum(base["savers"].values()) + 2
+        for fault, cfault in fault_list(base):
+            c = with_fault(base, fault, cfault)
+            small = len(base["nodes"]) <= 3 and base["N"] <= 3
+            if small:
+                tasks.append({"kind": "dfs", "case": c, "bound": 2, "max_runs": 1500 if big else 60,
+                              "weight": nthreads * (base["N"] + 1) * 40})
+            tasks.append({"kind": "random", "case": c, "n": 150 if big else 12, "seed": rng.getrandbits(48),
+                          "sticky": rng.choice([0.0, 0.5, 0.8]), "weight": nthreads * (base["N"] + 1) * 10})
+    return tasks
+
+
+# ----- extraction cross-check inside Coq (kernel vm_compute) ------------------------------------------
+
+def coq_net(net):
+    """(Coq term of the net, Coq term of the initial state) for the tokens of a derived network"""
+    it = iter(net)
+    nx = lambda: next(it)
+    b = lambda x: "true" if x else "false"
+    nmb = nx()
+    boxes = []
+    for _ in range(nmb):
+        cap, lz, ns = nx(), nx(), nx()
+        drives = [nx() for _ in range(ns)]
+        boxes.append("(mk_mbox %d%%nat %s [%s])" % (cap, b(lz), "; ".join(b(d) for d in drives)))
+    nth = nx()
+    threads = []
+    pair = lambda a, c: "(%d%%nat, %d%%nat)" % (a, c)
+    for _ in range(nth):
+        k = nx()
+        if k == 0:
+            nsrc, out, nin = nx(), nx(), nx()
+            ins = [pair(nx(), nx()) for _ in range(nin)]
+            threads.append("(mk_thread (KStage %d%%nat %d%%nat) [%s])" % (nsrc, out, "; ".join(ins)))
+        elif k == 1:
+            mb, sb, rc = nx(), nx(), nx()
+            threads.append("(mk_thread (KSaver %s) [%s])" % (b(rc), pair(mb, sb)))
+        elif k == 2:
+            mb, sb = nx(), nx()
+            threads.append("(mk_thread KDiscard [%s])" % pair(mb, sb))
+        elif k == 3:
+            mb, sb, no = nx(), nx(), nx()
+            outs = ["(%d%%nat, %s)" % (nx(), b(nx())) for _ in range(no)]
+            threads.append("(mk_thread (KDivider [%s]) [%s])" % ("; ".join(outs), pair(mb, sb)))
+        else:
+            mb, sb, relay = nx(), nx(), nx()
+            threads.append("(mk_thread (KMain %s) [%s])" % (b(relay), pair(mb, sb)))
+    ft, fp, fc = nx(), nx(), nx()
+    ck, cc, ce = nx(), nx(), nx()
+    f1, f2, f3 = nx(), nx(), nx()
+    fault = "None" if ft < 0 else "(Some (%d%%nat, %d%%nat, %d%%nat))" % (ft, fp, fc)
+    cfault = "None" if ck < 0 else "(Some (%d%%nat, %s, %d%%nat))" % (ck, b(cc), ce)
+    lst = lambda: "[" + "; ".join("%d%%nat" % nx() for _ in range(nx())) + "]"
+    kill, join, sav = lst(), lst(), lst()
+    nt = "(mkNet %s %s %s %s %s %s %s %s)" % (fault, cfault, kill, join, sav, b(f1), b(f2), b(f3))
+    st0 = "(ninit %s [%s] [%s])" % (nt, "; ".join(boxes), "; ".join(threads))
+    return nt, st0
+
+
+def kernel_crosscheck(ctx, picks):
+    """picks: list of (net tokens, schedule): the per-step observations computed by the extracted OCaml model must
+    equal what Coq's vm_compute gives for the same Gallina definitions"""
+    if not picks:
+        return
+    lines = [model_line(net, sched) for net, sched in picks]
+    outs = lib.run_model("C06", lines)
+    eqs = []
+    for (net, sched), mo in zip(picks, outs):
+        parts, dis, term, oc, en, init = split_model(mo)
+        nt, st0 = coq_net(net)
+        rhs = "[" + "; ".join("[" + "; ".join("(%s)" % x for x in o.split()) + "]" for o in parts) + "]"
+        sch = "[" + "; ".join("%d%%nat" % t for t in sched[:len(parts)]) + "]"
+        eqs.append("nrun_obs %s %s %s = (%s : list (list Z))" % (nt, st0, sch, rhs))
+    n, fails = lib.coq_crosscheck(
+        "C06", "From SV Require Import Base.Prelude Model.Mailbox Model.MailboxFail Model.C06Run.", eqs)
+    ctx.coverage.setdefault("kernel_crosscheck", {})["threaded"] = {"equations": n, "failed_files": len(fails)}
+    if fails:
+        ctx.violation("threaded", "extracted model and Coq vm_compute disagree: " + fails[0][-400:],
+                      {"input": "corr:C06/threaded/extraction-crosscheck", "log": fails[0]}, no_failing_input=True)
+
+
+
+def witness_path(name):
+    return os.path.join(lib.VERIF, "corpus", "C06", name + ".json")
+
+
+def replay_witnesses(ctx):
+    """the canonical witnesses of the known defect classes, replayed first; -> set of classes still failing"""
+    still = set()
+    d = os.path.join(lib.VERIF, "corpus", "C06")
+    if not os.path.isdir(d):
+        return still
+    for fn in sorted(os.listdir(d)):
+        if not fn.endswith(".json"):
+            continue
+        w = json.load(open(os.path.join(d, fn)))
+        import contextlib
+        import io
+        with contextlib.redirect_stdout(io.StringIO()):      # strax prints from the GeneratorExit branch
+            r = exec_task({"kind": "replay", "case": w["case"], "schedule": w["schedule"]})
+        for dis in r["disagreements"]:
+            ctx.violation("threaded", "model and implementation disagree on corpus witness %s: %s" % (fn, dis["what"]),
+                          {"input": "corr:C06/threaded/corpus", "case": w["case"], "schedule": dis["schedule"]},
+                          no_failing_input=True)
+        for f in r["failures"]:
+            still.add(w.get("class"))
+            ctx.violation("threaded", "ThreadedMailboxProcessor violates C06 (%s): %s" % (case_tag(w["case"]), f["what"]),
+                          {"input": {"case": w["case"], "schedule": w["schedule"]}, "outcome": f["outcome"],
+                           "final": f["final"], "class": w.get("class")})
+        ctx.count("threaded", 1, 1 if r["failures"] else 0, {"corpus": 1})
+    return still
+
+
+def unit_threaded(ctx):
+    still_known = replay_witnesses(ctx)
+    tasks = build_threaded_tasks(ctx)
+    t0 = time.time()
+    results = run_tasks(tasks)
+    ctx.notes.append("threaded: exploration wall time %.1fs for %d tasks" % (time.time() - t0, len(tasks)))
+    dist = {}
+    n_eval = n_nontriv = stray = 0
+    disagreeing = []
+    suppressed = {}
+    for t, r in zip(tasks, results):
+        c = r["case"]
+        for key in ("kind." + r["kind"], "shape." + c["shape"], "lazy" if c["lazy"] else "eager",
+                    "N%d" % c["N"], "cap%d" % c["cap"],
+                    "fault." + ("none" if not c["fault"] else ("saver" if "saver" in c["fault"] else
+                                                                 [nd["kind"] for nd in c["nodes"] if nd["name"] == c["fault"]["node"]][0])),
+                    "consumer." + ("none" if not c["cfault"] else ("close" if c["cfault"]["close"] else "exception"))):
+            dist[key] = dist.get(key, 0) + r["runs"]
+        for k, v in r["outcomes"].items():
+            dist["outcome." + k] = dist.get("outcome." + k, 0) + v
+        for k, v in r["codes"].items():
+            dist["caller." + k] = dist.get("caller." + k, 0) + v
+        dist["steps"] = dist.get("steps", 0) + r["steps"]
+        dist["truncated_dfs_tasks"] = dist.get("truncated_dfs_tasks", 0) + int(bool(r["truncated"]))
+        n_eval += r["runs"]
+        n_nontriv += r["nontrivial"]
+        stray += r["threads_left"]
+        if r.get("sample") and len(ctx.coverage["samples"]) < 10 and (c["fault"] or c["cfault"]):
+            ctx.sample(r["sample"])
+        for f in r["failures"]:
+            if f["class"] is not None and f["class"] in still_known:
+                suppressed[f["class"]] = suppressed.get(f["class"], 0) + 1
+                continue
+            ctx.violation("threaded", "ThreadedMailboxProcessor violates C06 (%s): %s" % (case_tag(c), f["what"]),
+                          {"input": {"case": c, "schedule": f["schedule"]}, "outcome": f["outcome"],
+                           "final": f["final"]})
+        if r["n_disagreements"]:
+            disagreeing.append(r)
+    for k, v in suppressed.items():
+        dist["known_class_%s_runs" % k] = v
+    ctx.count("threaded", n_eval, n_nontriv, dist)
+    xs = [(r["net"], r["xsample"]) for r in results if r.get("xsample") and r.get("net") and not r["n_disagreements"]]
+    if xs:
+        idx = sorted(ctx.rng.sample(range(len(xs)), min(30 if not (ctx.thorough or ctx.escalated()) else 120, len(xs))))
+        kernel_crosscheck(ctx, [xs[i] for i in idx])
+    if suppressed:
+        ctx.notes.append("threaded: failing runs inside the known defect classes (their canonical witnesses were "
+                         "replayed and reported above): %s" % suppressed)
+    if stray:
+        ctx.violation("harness", "the controlled scheduler left %d threads behind" % stray,
+                      {"input": "corr:C06/stray-threads"}, no_failing_input=True)
+    concrete = any(not v["nfi"] for v in ctx.violations)
+    for r in disagreeing[:5]:
+        c = r["case"]
+        dis = r["disagreements"][0]
+        if not concrete:
+            f = search_failing_input(ctx, c, still_known)
+            if f:
+                concrete = True
+                ctx.violation("threaded", "ThreadedMailboxProcessor violates C06 (%s): %s" % (case_tag(f[0]), f[1]["what"]),
+                              {"input": {"case": f[0], "schedule": f[1]["schedule"]}, "outcome": f[1]["outcome"],
+                               "final": f[1]["final"], "found_after_disagreement": dis["what"]})
+                continue
+        ctx.violation("threaded", "model and implementation disagree (%s, %d of %d schedules): %s"
+                      % (case_tag(c), r["n_disagreements"], r["runs"], dis["what"]),
+                      {"input": "corr:C06/threaded/%s" % r["kind"], "case": c, "schedule": dis["schedule"],
+                       "what": dis["what"]}, no_failing_input=True)
+
+
+def context_cases(ctx, big):
+    from harness import c06_ctx
+    C = c06_ctx.ctx_case
+    out = []
+    for lazy in (False, True):
+        for n in ((1, 2, 3) if big else (1, 2)):
+            cap = 1 + n % 2
+            base_specs = [("chain", ("c6top",), ()), ("chain", ("c6mid", "c6top"), ("c6src",)),
+                          ("fan", ("c6y",), ()), ("fan_side_first", ("c6x", "c6y"), ()), ("fan_post", ("c6y",), ())]
+            for graph, save, pre in base_specs:
+                base = C(graph, n, cap, lazy, save=save, preload=pre)
+                for fault, cfault in fault_list(base):
+                    out.append(with_fault(base, fault, cfault))
+    return out
+
+
+def unit_context(ctx):
+    big = ctx.thorough or ctx.escalated()
+    rng = ctx.rng
+    cases = context_cases(ctx, big)
+    tasks = []
+    for c in cases:
+        # controlled schedules through Context.get_iter
+        if big or rng.random() < 0.5:
+            tasks.append({"kind": "dfs", "case": c, "bound": 2, "max_runs": 300 if big else 25, "weight": 400})
+        tasks.append({"kind": "random", "case": c, "n": 60 if big else 6, "seed": rng.getrandbits(48),
+                      "sticky": rng.choice([0.0, 0.5]), "weight": 100})
+        # real OS schedules, also with a worker pool (lazy mode is switched off there by the processor)
+        tasks.append({"kind": "os", "case": c, "reps": 6 if big else 2, "how": rng.choice(["iter", "array"]),
+                      "weight": 50})
+        if not c["lazy"]:
+            c2 = json.loads(json.dumps(c))
+            c2["max_workers"] = 2
+            c2["shape"] += "-pool"
+            tasks.append({"kind": "os", "case": c2, "reps": 6 if big else 2, "how": rng.choice(["iter", "array"]),
+                          "weight": 50})
+    t0 = time.time()
+    results = run_tasks(tasks)
+    ctx.notes.append("context: wall time %.1fs for %d tasks" % (time.time() - t0, len(tasks)))
+    dist = {}
+    n_eval = n_nontriv = 0
+    disagreeing = []
+    for t, r in zip(tasks, results):
+        c = r["case"]
+        for key in ("kind." + r["kind"], "shape." + c["shape"], "lazy" if c["lazy"] else "eager",
+                    "pool" if c.get("max_workers") else "nopool"):
+            dist[key] = dist.get(key, 0) + r["runs"]
+        for k, v in r["codes"].items():
+            dist["caller." + k] = dist.get("caller." + k, 0) + v
+        for k, v in r["outcomes"].items():
+            dist["outcome." + k] = dist.get("outcome." + k, 0) + v
+        n_eval += r["runs"]
+        n_nontriv += r["nontrivial"]
+        if r.get("sample") and r["kind"] == "os" and len(ctx.coverage["samples"]) < 12 and (c["fault"] or c["cfault"]):
+            ctx.sample(r["sample"])
+        for f in r["failures"]:
+            ctx.violation("context", "Context.get_iter with ThreadedMailboxProcessor violates C06 (%s, %s): %s"
+                          % (case_tag(c), "OS schedule" if r["kind"] == "os" else "controlled schedule", f["what"]),
+                          {"input": {"case": c, "schedule": f["schedule"], "how": t.get("how")}, "outcome": f["outcome"],
+                           "final": f["final"]})
+        if r["n_disagreements"]:
+            disagreeing.append(r)
+    ctx.count("context", n_eval, n_nontriv, dist)
+    for r in disagreeing[:3]:
+        dis = r["disagreements"][0]
+        ctx.violation("context", "model and implementation disagree (%s, %d of %d schedules): %s"
+                      % (case_tag(r["case"]), r["n_disagreements"], r["runs"], dis["what"]),
+                      {"input": "corr:C06/context/%s" % r["kind"], "case": r["case"], "schedule": dis["schedule"],
+                       "what": dis["what"]}, no_failing_input=True)
+
+
+def search_failing_input(ctx, case, still_known, budget=1500):
+    """model and implementation disagree on `case`: look for a schedule on which the implementation violates
+    the property itself — this case, its other failure positions and one more / one fewer chunk"""
+    cases = [case]
+    base = with_fault(case, None, None)
+    for fault, cfault in fault_list(base):
+        cases.append(with_fault(base, fault, cfault))
+    for dn in (-1, 1):
+        if 0 <= case["N"] + dn <= 4:
+            c2 = json.loads(json.dumps(case))
+            c2["N"] = case["N"] + dn
+            cases.append(c2)
+    tasks = []
+    for c in cases[:40]:
+        tasks.append({"kind": "dfs", "case": c, "bound": 2, "max_runs": budget, "compare": False})
+        tasks.append({"kind": "random", "case": c, "n": budget // 5, "seed": ctx.rng.getrandbits(48),
+                      "sticky": 0.5, "compare": False})
+    for r in run_tasks(tasks):
+        for f in r["failures"]:
+            if f["class"] is None or f["class"] not in still_known:
+                return r["case"], f
+    return None
+
+
 def run(ctx):
-    ctx.coverage["rule"] = ("post_office: random DAGs of 1..6 topics (sources of 0..4 messages, 1:1 stages with 1..3 "
-                            "dependencies), random saver spies, a failure injected at every (producer, position) "
-                            "including 'at the end' and 'never reached', plus the failure-free run; non-trivial = the "
-                            "target is a stage in a graph of >= 2 topics; distinct by canonical JSON.")
+    ctx.coverage["rule"] = (
+        "post_office: random DAGs of 1..6 topics (sources of 0..4 messages, 1:1 stages with 1..3 dependencies), "
+        "random saver spies, a failure injected at every (producer, position) including 'at the end' and 'never "
+        "reached', plus the failure-free run; non-trivial = the target is a stage in a graph of >= 2 topics. "
+        "threaded: one evaluation = one maximal schedule of the real ThreadedMailboxProcessor under the controlled "
+        "scheduler, compared step by step with the extracted Coq network LTS and judged by the C06 predicate; graphs: "
+        "chains of 1..3 stages, loader-fed chains, one-level fan-out (multi-output plugin with saved / discarded side "
+        "output, either order of provides, optional stage before / after), diamonds; 0..3 chunks; max_messages 1, 2, 4; "
+        "lazy and eager; savers on the target / an intermediate / a side output (also two savers, rechunking savers); a "
+        "failure at every (thread, chunk) position of every stage kind (source, loader, plugin, multi-output plugin, "
+        "saver, consumer exception, consumer close) and the failure-free run; schedules: depth-first with preemption "
+        "bound 2 (capped) for <= 3 stages, seeded random walks for all; non-trivial = a failure fired and some thread "
+        "had to wait; distinct by (case, schedule). "
+        "context: the real Context.get_iter / get_array (relay of context.py) with real strax plugins (chain of three, "
+        "multi-output plugin in both orders of provides, stage after the fan-out, loader-fed source) and a real "
+        "DataDirectory, failures in compute / FileSaver._save_chunk / the backend's _read_chunk / apply_data_function / "
+        "closing the iterator: controlled schedules compared with the model, and real OS schedules with "
+        "sys.setswitchinterval(1e-6), with and without max_workers=2 (futures); non-trivial = a failure fired.")
+    ctx.assumptions.append(
+        "lock-free code between two lock regions of mailbox.py touches only thread-local state, so it is merged into "
+        "the preceding lock region: one scheduler step = one lock region + the lock-free code up to the next lock "
+        "acquisition / wait / join")
+    ctx.assumptions.append("CPython RLock/Condition behave as documented; timeouts are represented by deadlock")
     unit_post_office(ctx)
+    unit_threaded(ctx)
+    if any(not v["nfi"] for v in ctx.violations):
+        # a concrete failing input is already in hand: the verdict is settled, skip the most expensive unit
+        ctx.notes.append("context: skipped, the threaded unit already produced a concrete failing input")
+    else:
+        unit_context(ctx)
 
 
 def replay(ctx, obj):
     r = obj["replay"]
+    if obj.get("unit") == "threaded" or (isinstance(r.get("input"), dict) and "schedule" in r.get("input", {})) \
+            or "schedule" in r:
+        inp = r["input"] if isinstance(r.get("input"), dict) else r
+        case, schedule = inp["case"], inp["schedule"]
+        if schedule is None:
+            # a failure seen under the real OS scheduler: re-sample
+            _worker_init()
+            res = exec_os_task({"kind": "os", "case": case, "reps": 20, "how": inp.get("how") or "iter"})
+            sys.stdout = sys.__stdout__
+            print("case:", case_tag(case), "| 20 runs under the OS scheduler:", res["codes"])
+            for f in res["failures"]:
+                print("property FAILS:", f["what"])
+            return 1 if res["failures"] else 0
+        import contextlib
+        import io
+        with contextlib.redirect_stdout(io.StringIO()):
+            res = exec_task({"kind": "replay", "case": case, "schedule": schedule})
+        print("case:", case_tag(case))
+        print("threads:", res["names"], "schedule:", schedule)
+        print("model comparison:", res["disagreements"][0]["what"] if res["disagreements"] else "agrees")
+        for f in res["failures"]:
+            print("property FAILS:", f["what"])
+            print("final:", json.dumps(f["final"]))
+        if not res["failures"]:
+            print("property: holds on this schedule (%s)" % res["outcomes"])
+        from harness.sched.core import shutdown_pool
+        shutdown_pool()
+        return 1 if res["failures"] else 0
     case = r.get("case") if isinstance(r.get("input"), str) else r.get("input")
     nodes = [tuple(x) for x in case["nodes"]]
     fault = tuple(case["fault"]) if case["fault"] else None
